@@ -338,6 +338,7 @@ def do_check(prof: Profile, args) -> int:
     open_sigs = {k["signature"]: k for k in known if k["status"] == "open" and k.get("property") == prof.prop}
     exit_code = 0
     n_viol = 0
+    unreproduced = 0
     results = list(agg["violations"].values())
     for v in pre_violations:
         results.append(v)
@@ -354,8 +355,18 @@ def do_check(prof: Profile, args) -> int:
                                       {"minimisation_executions": used, "original_steps": len(case.get("steps", []))})
             ok, out = batch.fresh_replay(prof.prop, path)
             if not ok:
-                print(f"HARNESS-ERROR replay {path} did not reproduce in a fresh interpreter:\n{out}")
-                return 2
+                # the minimised case does not stand on its own; fall back to the case exactly as it ran
+                path0 = batch.write_replay(prof.prop, r["seed"], case, v, {"minimisation": "discarded: the minimised "
+                                           "case did not reproduce in a fresh interpreter"})
+                ok0, out0 = batch.fresh_replay(prof.prop, path0)
+                if not ok0:
+                    # neither form stands on its own: not a finding that can be handed over. Other violations of this
+                    # batch are still reported; if there is none, the batch ends as a harness error.
+                    print(f"HARNESS-NOTE replay {path} did not reproduce in a fresh interpreter:\n{out[-600:]}")
+                    unreproduced += 1
+                    n_viol -= 1
+                    continue
+                path, mv = path0, v
             v = mv
         else:
             path = batch.write_replay(prof.prop, r.get("seed", 0), r.get("replay", {}), v)
@@ -368,6 +379,9 @@ def do_check(prof: Profile, args) -> int:
         print(f"  {v['detail'][:600]}")
         exit_code = 1
 
+    if unreproduced and exit_code == 0:
+        print(f"HARNESS-ERROR {unreproduced} violation(s) found by the batch did not reproduce in a fresh interpreter")
+        return 2
     wall = time.time() - t0
     if not args.no_evidence:
         rate = agg["runs"] / max(agg["wall"], 1e-9)
